@@ -147,11 +147,11 @@ func runC07(c *fw.Ctx) {
 		}
 	}
 	// ---- two graphs that share only a leaf, both built BEFORE either is back-propagated; the leaf is expanded to the same shape in both ----
-	for i := 0; i < c.Pick(1500, 20000); i++ {
+	for i := 0; i < c.Pick(1500, 60000); i++ {
 		c.Case(func(k *fw.K) { c07TwoGraphs(k) })
 	}
 	// ---- an explicit Broadcast result that feeds two (or three) operations of the same graph ----
-	for i := 0; i < c.Pick(1500, 20000); i++ {
+	for i := 0; i < c.Pick(1500, 60000); i++ {
 		c.Case(func(k *fw.K) {
 			dst := RandShape(k.Rng, 1, 3, 3)
 			srcs := BroadcastSources(dst)
@@ -206,7 +206,7 @@ func runC07(c *fw.Ctx) {
 		})
 	}
 	// ---- sampled pairs with sizes up to 7 ----
-	for i := 0; i < c.Pick(2000, 20000); i++ {
+	for i := 0; i < c.Pick(2000, 60000); i++ {
 		c.Case(func(k *fw.K) {
 			dst := BigShape(k.Rng, 1, 300)
 			srcs := BroadcastSources(dst)
@@ -225,7 +225,7 @@ func runC07(c *fw.Ctx) {
 		})
 	}
 	// ---- sampled high-rank pairs ----
-	for i := 0; i < c.Pick(5000, 50000); i++ {
+	for i := 0; i < c.Pick(5000, 150000); i++ {
 		c.Case(func(k *fw.K) {
 			dst := RandShape(k.Rng, 4, maxSampledRank-1, 3)
 			prs := batchPairs(dst)
